@@ -197,7 +197,7 @@ def get_unreachable_nodes(g, start_nodes, radius=1):
     D = np.identity(A.shape[0], dtype=A.dtype)
     D_sum = D.copy()
     for _ in range(radius):
-        D = np.matmul(D, A)
+        D = (np.matmul(D, A) > 0).astype(A.dtype)
         D_sum += D
     start_indices = [node_index[n] for n in start_nodes]
     center_paths = D_sum[start_indices].sum(axis=0)
